@@ -172,7 +172,8 @@ def rnd_spec(rng, L):
 
 NEAR = ['-0', '5-2', '1-2-3', '-', '', 'a-b', '+1-+3', '-+2', '1_0-2_0', '0-1_', '_0-1', ' 1 - 3 ', '1 -', '- 2', '\t0-\n',
         '0x1-2', '1e1-', '1.0-2', '--2', '2--', '0-1;', '0 1', '\xa00-1', '\x850-', '\x1c0-1', '0-1\x00', ' 0-1', '0-1?',
-        '-' + '0' * 40 + '3', '0' * 4300 + '-', '0' * 4301 + '-', '0-' + '1' * 4301, '1-+', '+-1', '-+', '0-+0', '+0-0', '00-00']
+        '-' + '0' * 40 + '3', '1-+', '+-1', '-+', '0-+0', '+0-0', '00-00']
+NEAR_LONG = ['0' * 4300 + '-', '0' * 4301 + '-', '0-' + '1' * 4301, '-' + '1_' * 4299 + '1', '-' + '1_' * 4300 + '1']   # int() digit limit; slow in the model
 UNITS = ['bytes=', 'bytes=', 'bytes=', 'bytes=', 'bytes=', 'bytes=', 'xbytes=', 'Bytes=', 'BYTES=', 'items=', 'bytes =', 'bytes',
          'bytes:', ' bytes=', 'bytes= ', 'bytes==', 'bytes=bytes=', '', '=', 'none', 'a=b,bytes=']
 
@@ -185,6 +186,8 @@ def rnd_range(rng, L):
             h += rng.choice([',', ', ', ',,']) + rng.choice([rnd_spec(rng, L), rng.choice(NEAR)])
         return h
     if r < 0.8:
+        if rng.random() < 0.01:
+            return 'bytes=' + rng.choice(NEAR_LONG)
         return 'bytes=' + rng.choice(NEAR) + rng.choice(['', '', ',0-1', ','])
     if r < 0.92:
         return rng.choice(UNITS) + rng.choice([rnd_spec(rng, L), rng.choice(NEAR)])
